@@ -22,7 +22,12 @@ Functions, parameters, results
   (`targs`) and the class template specialisation it belongs to: `record` (exact name, `GridIndexMapping<double, 2>`) or `cls`
   (substring of the class's name with template arguments); members of instantiated class templates and out-of-class explicit
   specialisations (`template<> void RayCasting<double, 2>::next`) are found; `suffix` tells instantiations apart in Lean;
-  `outputs` restricts a function to some written members (dead code is then removed);
+  `outputs` restricts a function to some written members (dead code is then removed); `nosig` is a substring the type must NOT contain
+  (`') const'`: the non-const overload of `operator()`);
+* a function whose return type is a NON-CONST lvalue reference to a scalar and that returns an element `c[i]` of a list-encoded container
+  (`T & operator()(…) { return buffer_[k]; }`, plain vector encoding) is translated to the LOCATION it returns: its result is the index
+  `i` (the caller's read through the reference is `List.getD c i`, its assignment `List.set c i x`); such a function cannot be a
+  callee of another translated function; `T & f(T & x, …) { …; return x; }` returns nothing besides the written leaves of `x`;
 * calls to library functions (methods, constructors incl. base-class and delegating initialisers, template instantiations) with a
   body in the TU are translated too and called; a callee that indexes with an integer PARAMETER (`step_(cellIndexes, axis)` with
   `v[axis]`) is translated once per constant argument of the call (`step__double_2_c0`, …); `const T & f() const { return member_; }`
@@ -30,6 +35,12 @@ Functions, parameters, results
   function-typed parameters, those in `externs` are mapped to a named Lean function;
 * a pointer (member / parameter) to a class object with a definition in the TU stands for that object (`p->f` is the leaf `p_f`):
   assumes it is not null and aliases nothing else the function touches; assigning such a pointer stays untranslatable.
+* abstract objects (spec key `abstract_classes` = class names): an object reached through a pointer / reference and touched ONLY by calls
+  of virtual methods WITHOUT a body in the TU is ONE opaque leaf of the abstract type σ; every such method `m` becomes a function-typed
+  parameter of the translated function — a const method `m : σ → args → ret` (state unchanged), a non-const one `m : σ → args → σ × ret`
+  (`σ → args → σ` for `void`) whose first component is the new state (threaded through conditions, branches and loops like any
+  written leaf). Only scalar arguments / results; a scalar type variable that occurs only in a loop's instance arguments is passed to
+  the loop function by name (`(α := α)`).
 
 Scalars
 * `double`/`float` -> type variable α (a second variable δ for `double` when both occur in one function, with
@@ -72,6 +83,10 @@ Control flow
   entry is UNROLLED (at most 16 passes; the condition must stay decided on every pass; `break` / `continue` are supported and
   duplicate the code that follows); inside an unrolled loop a run-time-looking Eigen index `v[a]` is the constant of that pass.
   Order of preference for a loop: constant bounds (unrolled) — decided condition (unrolled, with the option) — counted — fuel.
+* spec option `range_for`: `for (auto p : c)` / `for (const auto & p : c)` over a whole list-encoded container (`std::vector` / `deque`
+  of scalars, `std::vector` of fixed-size points in the 'checked' encoding) -> an auxiliary function that is STRUCTURALLY RECURSIVE ON
+  THE LIST (`| [], vars => vars | p :: rest, vars => body; loop rest vars'`: no fuel, no index, never `none`); `p` is bound by value; the
+  body may not `break` / `continue` / `return` or assign the container. Without the option a range-based for is untranslatable.
 
 Eigen (fixed-size objects only; an object is the family of its coefficients)
 * `v[i]`, `v(i)`, `m(i,j)`, `.x()…`, fixed-size constructors, `Identity()/Zero()/Ones()`, `T::Constant(x)`, `.norm()/.squaredNorm()`
@@ -105,6 +120,18 @@ Standard containers
     abstract element type τ: elements can only be copied in (`push_back(x)`, `v[i] = x` with x a variable, which then is a parameter of
     type τ) and returned (`return v[i]` -> the checked read `v[i]?` : `Option τ`);
   `std::queue<T>` / `std::deque<T>` are always read as in `'plain'` (`push` -> `v ++ [x]`, `pop()` / `pop_front()` -> `List.drop 1`).
+* `std::fill(std::begin(v), std::end(v), x)` / `std::fill(v.begin(), v.end(), x)` over a WHOLE list-encoded container is
+  `List.replicate (List.length v) x`; a `mutable std::mutex` data member is not part of an object's leaves;
+* whole containers of records (spec option `whole_containers`): a `std::list<R>` / `std::vector<R>` of a record R whose fields are all
+  scalars / strings / enums is ONE leaf `List (T1 × T2 × …)` (fields in ALPHABETICAL order); a `std::map<K, V>` of scalars / strings is ONE
+  leaf `List (K × V)` = its entries in iteration order, i.e. ascending keys — key order and uniqueness are an INVARIANT of that
+  representation (kept by the generated helper `mapInsertNew`), not enforced by the type. An iterator into such a container is an `Int`
+  index (`std::(c)begin(c)` / `c.(c)begin()` = 0, `(c)end` = the length, `++it` = `it + 1` as a statement or as a value — also inside a
+  loop condition, whose exit values are those AFTER the condition was evaluated —, `it == / != it'`, `it->f` = the projection of
+  `List.getD l it <default element>`: dereferencing `end()` is undefined behaviour, the default element stands for it);
+  `l.insert(end(l), begin(l2), end(l2))` is `l ++ l2`, `m.insert(begin(m2), end(m2))` is `List.foldl mapInsertNew m m2` (a key that is
+  present keeps its value); such a container is passed whole to a translated callee. The fixed-location reading of `front()` /
+  `begin()->` above stays available (a container cannot be used both ways in one function).
 
 Anything else (function-local `static`, writes to globals, unknown calls, unsupported statements) makes the function
 UNTRANSLATABLE: the generated file then holds a comment with the reason and no definition of that name, so that the
@@ -112,7 +139,8 @@ bridge theorem about it no longer compiles.
 
 Spec-wide keys, besides `id sources headers extra filter extra_filters macros imports opens functions uninterpreted externs strip_ns`:
 `vector_encoding` ('checked' | 'plain'), `opaque_elements`, `incr_encoding` ('inline' | 'let'), `unsigned_wrap`,
-`fold_constant_conditions`, `unroll_constant_loops`. The defaults give the first-listed / option-less reading.
+`fold_constant_conditions`, `unroll_constant_loops`, `abstract_classes` (list of class names), `whole_containers`, `range_for`. The
+defaults give the first-listed / option-less reading. A fixed-size `Eigen::Array<T, r, c>` has the leaves of the `Matrix` of that shape.
 Only the Python standard library is used.
 """
 import json
@@ -366,7 +394,7 @@ class TU:
             f = os.path.relpath(f, self.repo)
         return '%s:%s' % (f, loc.get('line', '?'))
 
-    def find_function(self, cxx, sig=None, targs=None, record=None, cls=None):
+    def find_function(self, cxx, sig=None, targs=None, record=None, cls=None, nosig=None):
         """all function definitions whose qualified name ends with `cxx` (optionally: whose type contains `sig`,
         whose template arguments are `targs`, whose class (template specialisation) is `record`, e.g. `Interval<double, 2>`,
         or has a name containing `cls`)"""
@@ -378,6 +406,8 @@ class TU:
                 if '<dependent type>' in t or self._dependent(d):
                     continue
                 if sig is not None and sig not in t:
+                    continue
+                if nosig is not None and nosig in t:      # `nosig`: a substring the type must NOT contain (`) const`: the non-const overload)
                     continue
                 if targs is not None and self.tmpl_args.get(fid) != targs:
                     continue
@@ -642,7 +672,9 @@ TY_LEAN = {'a': 'α', 'd': 'δ', 'i': 'Int', 'b': 'Bool', 's': 'String',
            # lists (std::vector / std::queue / std::deque) of scalars / integers / booleans
            'la': 'List α', 'ld': 'List δ', 'li': 'List Int', 'lb': 'List Bool',
            # plain encoding with `opaque_elements`: list of opaque elements τ; an element of it; its checked read
-           'le': 'List τ', 'e': 'τ', 'oe': 'Option τ'}
+           'le': 'List τ', 'e': 'τ', 'oe': 'Option τ',
+           # an object of a class listed in the spec's `abstract_classes` (only bodiless virtual calls touch it): its abstract state
+           'o': 'σ'}
 for _n in (2, 3, 4):      # checked encoding: std::vector of fixed-size Eigen vectors = lists of coordinate tuples
     for _c, _s in (('a', 'α'), ('d', 'δ'), ('i', 'Int')):
         TY_LEAN['L%d%s' % (_n, _c)] = 'List (%s)' % ' × '.join([_s] * _n)
@@ -1095,6 +1127,8 @@ class Translator:
         """leaf paths (with C++ scalar type) of a small aggregate type"""
         t = strip_cv(ctype)
         m = re.search(r'Matrix<\s*([\w ]+?)\s*,\s*(-?\d+)\s*,\s*(-?\d+)', t)
+        if not m and 'Eigen::Array' in t:      # a fixed-size Eigen::Array has the leaves of the Matrix of the same shape
+            m = re.search(r'Array<\s*([\w ]+?)\s*,\s*(-?\d+)\s*,\s*(-?\d+)', t)
         if m:
             r, c = int(m.group(2)), int(m.group(3))
             if r < 1 or c < 1 or r * c > 64:
@@ -1114,6 +1148,8 @@ class Translator:
         for c in rec.get('inner', []) or []:
             if c.get('kind') == 'FieldDecl':
                 ft = type_of(c)
+                if re.match(r'^(?:std::)?(?:recursive_|shared_|timed_)?mutex$', strip_cv(ft)):
+                    continue      # a mutex member holds no data of the sequential meaning (like the skipped std::lock_guard declarations)
                 if classify(ft) == 'agg':
                     out += [([c['name']] + p, st) for p, st in self.shape_of(ft)]
                 else:
@@ -1314,6 +1350,10 @@ class Translator:
     def read_lvalue_scalar(self, n, env):
         frame = env.frame
         m = strip_noop(n)
+        if self.spec.get('whole_containers'):
+            r = self.iter_member_read(m, env)      # `it->field` of an iterator into a whole container
+            if r is not None:
+                return r
         if self.is_list_index(m):
             return self.list_get(m, env, None)
         if m.get('kind') == 'CXXMemberCallExpr' and self.list_method(m) is not None:
@@ -1596,6 +1636,15 @@ class Translator:
             return self.eval_list_call(n, env, pre)
         if k == 'CXXMemberCallExpr' and self.wrapper_method(n) is not None:
             return self.eval_wrapper_call(n, env, pre)
+        if k == 'CXXMemberCallExpr' and self.spec.get('abstract_classes') and self.abstract_call(n) is not None:
+            return self.eval_abstract_call(n, env, pre)
+        if self.spec.get('whole_containers'):
+            if self.iter_compare(n) is not None:
+                return self.eval_iter_compare(n, env)
+            if self.whole_insert(n, frame) is not None:
+                return self.eval_whole_insert(n, env, pre)
+            if k == 'CXXOperatorCallExpr' and self.iter_incr(n) is not None:
+                return self.iter_value(n, env)[0]
         if k == 'CXXOperatorCallExpr' and len(n['inner']) == 3 and is_duration(type_of(n['inner'][1])) and \
                 strip_cv(type_of(n['inner'][1])) == strip_cv(type_of(n['inner'][2])):
             # arithmetic / comparison of two std::chrono::durations of the SAME type: on their counts
@@ -1748,7 +1797,373 @@ class Translator:
             # std::min(a,b) = (b < a) ? b : a ;  std::max(a,b) = (a < b) ? b : a
             c = '%s < %s' % ((par(b.t), par(a.t)) if nm == 'min' else (par(a.t), par(b.t)))
             return Sc('(if %s then %s else %s)' % (c, unpar(b.t), unpar(a.t)), a.ty)
+        if nm == 'fill' and len(args) == 3 and pre is not None and re.match(r'^\s*(std::)?fill\s*\(', self.tu.range_text(n)):
+            # std::fill(std::begin(v), std::end(v), x) / std::fill(v.begin(), v.end(), x) over a WHOLE list-encoded container
+            r = self.fill_whole_list(args, env, pre)
+            if r is not NotImplemented:
+                return r
         return self.unknown_call(nm, n, env, pre)
+
+    # ---- whole containers (spec option `whole_containers`): a `std::list<R>` / `std::vector<R>` of a record R whose fields are all
+    #      scalars / strings / enums is ONE leaf of type `List (T1 × T2 × …)` (the fields in ALPHABETICAL order, like every aggregate's
+    #      leaves); a `std::map<K, V>` of scalars / strings is ONE leaf `List (K × V)` = its entries in iteration order, i.e. ascending
+    #      keys: key order and uniqueness are an INVARIANT of that representation (kept by the generated `mapInsertNew`), not enforced
+    #      by the type. An iterator into such a container is an `Int` index into the list (`begin` = 0, `end` = the length, `++it` =
+    #      `it + 1`, `it->f` = the projection of `List.getD l it <default element>`: dereferencing `end()` is undefined behaviour in C++,
+    #      the default element stands for it). Recognised: `std::(c)begin/(c)end(c)`, `c.(c)begin/(c)end()`, iterator variables,
+    #      `++it` / `--it` (statement or value), `it == / != it'`, `it->field`, `l.insert(end(l), begin(l2), end(l2))` (= `l ++ l2`),
+    #      `m.insert(begin(m2), end(m2))` (= `List.foldl mapInsertNew m m2`: entries whose key is present keep their value).
+    ITER_RE = re.compile(r'^(?:const )?(?:std::)?(?:_List_(?:const_)?iterator|_Rb_tree_(?:const_)?iterator|__gnu_cxx::__normal_iterator)<')
+
+    def whole_code(self, ctype, frame):
+        """type code of a container translated as a whole (None: not such a type); the code is registered in TY_LEAN"""
+        if not self.spec.get('whole_containers'):
+            return None
+        t = strip_cv(ctype)
+        m = re.match(r'^(?:std::)?(?:__cxx11::)?(list|vector|map)<', t)
+        if not m:
+            return None
+        cache = self.__dict__.setdefault('whole_cache', {})
+        key = (t, tuple(sorted(frame.top().float_map.items())))
+        if key in cache:
+            return cache[key]
+        res = None
+        try:
+            if m.group(1) == 'map':
+                kt = first_template_arg(t)
+                rest = t[t.index('<') + 1 + len(kt):].lstrip(' ,')
+                vt = first_template_arg('<' + rest)
+                if classify(kt) in ('int', 'uint', 'string', 'double', 'float') and classify(vt) in ('int', 'uint', 'string', 'double', 'float', 'bool'):
+                    tys = [self.tyvar(frame, kt), self.tyvar(frame, vt)]
+                    res = 'Wm(%s)' % ','.join(tys)
+                    TY_LEAN[res] = 'List (%s)' % ' × '.join(TY_LEAN[x] for x in tys)
+                    self.__dict__.setdefault('whole_fields', {})[res] = [('first', tys[0]), ('second', tys[1])]
+            else:
+                et = first_template_arg(t)
+                rid, rec = self.find_record(et)
+                if rec is not None and not rec.get('bases'):
+                    flds = [(c['name'], type_of(c)) for c in rec.get('inner', []) or [] if c.get('kind') == 'FieldDecl']
+                    if flds and all(classify(ft) in ('int', 'uint', 'string', 'double', 'float', 'bool') for _, ft in flds):
+                        flds = sorted((nm, self.tyvar(frame, ft)) for nm, ft in flds)
+                        res = 'Wl(%s)' % ','.join(ty for _, ty in flds)
+                        TY_LEAN[res] = 'List (%s)' % ' × '.join(TY_LEAN[ty] for _, ty in flds)
+                        self.__dict__.setdefault('whole_fields', {})[res] = flds
+        except Untranslatable:
+            res = None
+        cache[key] = res
+        return res
+
+    def whole_value(self, base, env):
+        """(root, path, type code, current value) of a container lvalue translated as a whole"""
+        code = self.whole_code(type_of(base), env.frame)
+        if code is None:
+            raise Untranslatable('container of type %s is not translatable as a whole' % strip_cv(type_of(base)))
+        root, path = self.resolve_lvalue(base, env)
+        o = self.lookup(env, root, path)
+        if isinstance(o, dict):
+            raise Untranslatable('container used both as a whole and by component (front() / begin()->)')
+        return root, path, code, self.read_leaf(env, root, path, code)
+
+    def whole_default(self, code, frame):
+        parts = []
+        for _, ty in self.whole_fields[code]:
+            if ty == 's':
+                parts.append('""')
+            elif ty == 'i':
+                parts.append('0')
+            elif ty == 'b':
+                parts.append('false')
+            else:
+                frame.need('NatCast', ty)
+                parts.append('((0 : Nat) : %s)' % TY_LEAN[ty])
+        return '(' + ', '.join(parts) + ')'
+
+    @staticmethod
+    def strip_iter(n):
+        """through the copies / conversions of an iterator value (`const_iterator(iterator)`, temporaries)"""
+        while True:
+            n = strip_noop(n)
+            if n.get('kind') in ('CXXConstructExpr', 'CXXTemporaryObjectExpr') and len(n.get('inner', []) or []) == 1 and Translator.ITER_RE.match(type_of(n)):
+                n = n['inner'][0]
+                continue
+            if n.get('kind') == 'ImplicitCastExpr' and n.get('castKind') == 'LValueToRValue' and n.get('inner') and Translator.ITER_RE.match(type_of(n)):
+                n = n['inner'][0]
+                continue
+            return n
+
+    def iter_call(self, n, frame):
+        """('begin' | 'end', container expression) when `n` is `std::(c)begin/(c)end(c)` / `c.(c)begin/(c)end()` of a whole container"""
+        n = self.strip_iter(n)
+        names = {'begin': 'begin', 'cbegin': 'begin', 'end': 'end', 'cend': 'end'}
+        if n.get('kind') == 'CallExpr' and len(n.get('inner', []) or []) == 2:
+            nm = (self.callee_ref(n).get('referencedDecl') or {}).get('name')
+            if nm in names and self.whole_code(type_of(n['inner'][1]), frame) is not None:
+                return names[nm], n['inner'][1]
+        if n.get('kind') == 'CXXMemberCallExpr' and len(n.get('inner', []) or []) == 1:
+            callee = self.callee_ref(n)
+            if callee.get('name') in names and callee.get('inner') and self.whole_code(type_of(callee['inner'][0]), frame) is not None:
+                return names[callee.get('name')], callee['inner'][0]
+        return None
+
+    def iter_var(self, n):
+        """declaration id of the iterator variable `n` refers to (None: not a known iterator variable)"""
+        n = self.strip_iter(n)
+        if n.get('kind') == 'DeclRefExpr':
+            rid = (n.get('referencedDecl') or {}).get('id')
+            if rid in self.__dict__.get('iter_of', {}):
+                return rid
+        return None
+
+    def iter_incr(self, n):
+        """(iterator variable id, +1 | -1) when `n` is the PREFIX `++it` / `--it` of a known iterator variable"""
+        n = self.strip_iter(n)
+        if n.get('kind') == 'CXXOperatorCallExpr' and len(n.get('inner', []) or []) == 2:
+            nm = (self.callee_ref(n).get('referencedDecl') or {}).get('name')
+            if nm in ('operator++', 'operator--'):
+                rid = self.iter_var(n['inner'][1])
+                if rid is not None:
+                    return rid, (1 if nm == 'operator++' else -1)
+        return None
+
+    def iter_value(self, n, env):
+        """(index : Sc, container (root, path)) of an iterator-valued expression; `++it` updates the variable in `env`"""
+        frame = env.frame
+        ic = self.iter_call(n, frame)
+        if ic is not None:
+            root, path, code, cur = self.whole_value(ic[1], env)
+            if ic[0] == 'begin':
+                return sc_lit(Sc('0', 'i'), 0), (root, tuple(path))
+            return Sc('((List.length %s : Nat) : Int)' % par(cur.t), 'i'), (root, tuple(path))
+        inc = self.iter_incr(n)
+        if inc is not None:
+            rid, d = inc
+            cur = self.read_leaf(env, rid, [], 'i')
+            new = Sc('(%s %s 1)' % (par(cur.t), '+' if d > 0 else '-'), 'i')
+            self.write(env, rid, [], new)
+            return new, self.iter_of[rid]
+        rid = self.iter_var(n)
+        if rid is not None:
+            return self.read_leaf(env, rid, [], 'i'), self.iter_of[rid]
+        raise Untranslatable('unsupported iterator expression %s' % self.strip_iter(n).get('kind'))
+
+    def exec_iter_decl(self, v, init, env, k):
+        """`auto it = std::cbegin(c);`: the iterator variable is an index into the list that stands for `c`"""
+        frame = env.frame
+        if not init:
+            raise Untranslatable('iterator `%s` without initialiser' % v.get('name'))
+        idx, cont = self.iter_value(init[0], env)
+        self.__dict__.setdefault('iter_of', {})[v['id']] = cont
+        env.local_roots.add(v['id'])
+        nm = frame.fresh(v.get('name', 'it'))
+        env.vars[v['id']] = Sc(nm, 'i')
+        return ('let', nm, unpar(idx.t), k(env))
+
+    def iter_member_read(self, m, env):
+        """`it->field` / `(*it).field` of a known iterator variable (None: not that form)"""
+        if m.get('kind') != 'MemberExpr' or not m.get('inner'):
+            return None
+        b = strip_noop(m['inner'][0])
+        if b.get('kind') == 'ImplicitCastExpr' and b.get('castKind') == 'LValueToRValue' and b.get('inner'):
+            b = strip_noop(b['inner'][0])
+        if b.get('kind') != 'CXXOperatorCallExpr' or len(b.get('inner', []) or []) != 2:
+            return None
+        if (self.callee_ref(b).get('referencedDecl') or {}).get('name') not in ('operator->', 'operator*'):
+            return None
+        rid = self.iter_var(b['inner'][1])
+        if rid is None:
+            return None
+        root, path = self.iter_of[rid]
+        cur = self.lookup(env, root, list(path))
+        e = env
+        while not isinstance(cur, Sc) and e.outer is not None:
+            e = e.outer
+            cur = self.lookup(e, root, list(path))
+        if not isinstance(cur, Sc) or cur.ty not in self.__dict__.get('whole_fields', {}):
+            raise Untranslatable('iterator into a container that is not translated as a whole')
+        cur = self.read_leaf(env, root, list(path), cur.ty)
+        flds = self.whole_fields[cur.ty]
+        names = [nm for nm, _ in flds]
+        if m.get('name') not in names:
+            raise Untranslatable('iterator member `%s`' % m.get('name'))
+        i = names.index(m.get('name'))
+        idx = self.read_leaf(env, rid, [], 'i')
+        elem = '(List.getD %s %s %s)' % (par(cur.t), self.nat_index(idx), self.whole_default(cur.ty, env.frame))
+        return Sc(tuple_proj(elem, i, len(flds)), flds[i][1])
+
+    def iter_compare(self, n):
+        """'==' | '!=' when `n` compares two iterators"""
+        if n.get('kind') != 'CXXOperatorCallExpr' or len(n.get('inner', []) or []) != 3:
+            return None
+        nm = (self.callee_ref(n).get('referencedDecl') or {}).get('name')
+        if nm not in ('operator==', 'operator!=') or not self.ITER_RE.match(strip_cv(type_of(n['inner'][1]))):
+            return None
+        return nm[len('operator'):]
+
+    def eval_iter_compare(self, n, env):
+        op = self.iter_compare(n)
+        a, ca = self.iter_value(n['inner'][1], env)
+        b, cb = self.iter_value(n['inner'][2], env)
+        if ca != cb:
+            raise Untranslatable('comparison of iterators into different containers')
+        return Sc('(%s %s %s)' % (par(a.t), '=' if op == '==' else '≠', par(b.t)), 'p')
+
+    def whole_insert(self, n, frame):
+        """the container expression when `n` is `c.insert(…)` on a whole container (None otherwise)"""
+        if n.get('kind') != 'CXXMemberCallExpr':
+            return None
+        callee = self.callee_ref(n)
+        if callee.get('kind') != 'MemberExpr' or callee.get('name') != 'insert' or not callee.get('inner'):
+            return None
+        if self.whole_code(type_of(callee['inner'][0]), frame) is None:
+            return None
+        return callee['inner'][0]
+
+    def eval_whole_insert(self, n, env, pre):
+        frame = env.frame
+        base = self.whole_insert(n, frame)
+        args = n['inner'][1:]
+        if pre is None:
+            raise Untranslatable('container insertion inside a conditionally evaluated expression')
+        root, path, code, cur = self.whole_value(base, env)
+        ics = [self.iter_call(a, frame) for a in args]
+        if code.startswith('Wl') and len(args) == 3 and all(ics) and [i[0] for i in ics] == ['end', 'begin', 'end']:
+            # l.insert(end(l), begin(x), end(x)): the whole of x appended
+            if tuple(self.resolve_lvalue(ics[0][1], env)[1]) != tuple(path) or self.resolve_lvalue(ics[0][1], env)[0] != root:
+                raise Untranslatable('list insertion at a position of another container')
+            if self.resolve_lvalue(ics[1][1], env) != self.resolve_lvalue(ics[2][1], env):
+                raise Untranslatable('list insertion of a range between two containers')
+            r2, p2, code2, other = self.whole_value(ics[1][1], env)
+            if code2 != code:
+                raise Untranslatable('list insertion between different element types')
+            self.list_store(env, pre, root, path, code, '(%s ++ %s)' % (par(cur.t), par(other.t)))
+            return None
+        if code.startswith('Wm') and len(args) == 2 and all(ics) and [i[0] for i in ics] == ['begin', 'end']:
+            # m.insert(begin(x), end(x)): every entry of x, in ascending key order; keys already present keep their value
+            if self.resolve_lvalue(ics[0][1], env) != self.resolve_lvalue(ics[1][1], env):
+                raise Untranslatable('map insertion of a range between two containers')
+            r2, p2, code2, other = self.whole_value(ics[0][1], env)
+            if code2 != code:
+                raise Untranslatable('map insertion between different entry types')
+            kty = self.whole_fields[code][0][1]
+            if kty in ('a', 'd'):
+                frame.need('LT', kty)
+                frame.need('DecidableLT', kty)
+                raise Untranslatable('map with a floating-point key')
+            self.need_helper('mapInsertNew')
+            self.list_store(env, pre, root, path, code, '(List.foldl mapInsertNew %s %s)' % (par(cur.t), par(other.t)))
+            return None
+        raise Untranslatable('unsupported form of insert() on a container translated as a whole')
+
+    # ---- abstract objects: spec key `abstract_classes` = names of classes whose objects are reached through a pointer / reference and
+    #      touched ONLY by calls of bodiless (pure) virtual methods. Such an object is ONE opaque leaf of the abstract type σ; every
+    #      virtual method `m` becomes a function-typed parameter of the translated function: a const method `m : σ → args → ret` (the state
+    #      is not changed), a non-const one `m : σ → args → σ × ret` (`σ → args → σ` for `void`) whose first component is the new state.
+    def abstract_class_of(self, ctype):
+        t = strip_cv(ctype)
+        if t.endswith('*'):
+            t = strip_cv(t[:-1])
+        for c in self.spec.get('abstract_classes', []) or []:
+            if t == c or t.endswith('::' + c):
+                return c
+        return None
+
+    def abstract_call(self, n):
+        """(object expression, method declaration) when `n` calls a virtual method WITHOUT a body in the translation unit on an object
+        of a class listed in `abstract_classes`; None otherwise"""
+        if n.get('kind') != 'CXXMemberCallExpr':
+            return None
+        callee = self.callee_ref(n)
+        if callee.get('kind') != 'MemberExpr' or not callee.get('inner'):
+            return None
+        base = callee['inner'][0]
+        if self.abstract_class_of(type_of(base)) is None:
+            return None
+        md = self.tu.decl_by_id.get(callee.get('referencedMemberDecl'))
+        if md is None or not md.get('virtual') or self.method_def(md.get('id')) is not None:
+            return None
+        return base, md
+
+    def abstract_lvalue(self, base, env):
+        b = strip_noop(base)
+        if b.get('kind') == 'ImplicitCastExpr' and b.get('castKind') == 'LValueToRValue' and b.get('inner'):
+            b = strip_noop(b['inner'][0])
+        if b.get('kind') not in ('DeclRefExpr', 'MemberExpr'):
+            raise Untranslatable('abstract object that is not a variable / member')
+        return self.resolve_lvalue(b, env)
+
+    def abstract_method_type(self, md, frame):
+        qt = (md.get('type') or {}).get('qualType', '')
+        rt = qt.split('(')[0].strip()
+        rc = classify(rt)
+        if rc == 'void':
+            rty = None
+        elif rc in ('int', 'uint', 'bool', 'double', 'float') and not rt.rstrip().endswith('&') and not rt.rstrip().endswith('*'):
+            rty = self.tyvar(frame, rt)
+        else:
+            raise Untranslatable('virtual method %s of an abstract object returns a non-scalar (%s)' % (md.get('name'), rt))
+        return qt.rstrip().endswith('const'), rty
+
+    def eval_abstract_call(self, n, env, pre):
+        base, md = self.abstract_call(n)
+        frame = env.frame
+        root, path = self.abstract_lvalue(base, env)
+        st = self.read_leaf(env, root, path, 'o')
+        if st.ty != 'o':
+            raise Untranslatable('abstract object used as a scalar')
+        const, rty = self.abstract_method_type(md, frame)
+        parms = [c for c in md.get('inner', []) or [] if c.get('kind') == 'ParmVarDecl']
+        for pd in parms:
+            qt = (pd.get('type') or {}).get('qualType', '')
+            if (qt.rstrip().endswith('&') and not re.match(r'^const\b', qt.strip())) or qt.rstrip().endswith('*'):
+                raise Untranslatable('virtual method %s of an abstract object takes a non-const reference / pointer' % md.get('name'))
+        vs = [self.eval(a, env, pre) for a in n['inner'][1:]]
+        for v in vs:
+            if v is None or v.ty not in ('a', 'd', 'i', 'b', 's'):
+                raise Untranslatable('non-scalar argument of the virtual method %s' % md.get('name'))
+        nm = md.get('name')
+        dom = ['σ'] + [TY_LEAN[v.ty] for v in vs]
+        actual = ' '.join([par(st.t)] + [par(self.as_bool(v).t if v.ty == 'p' else v.t) for v in vs])
+        if const:
+            if rty is None:
+                return None      # a const method returning nothing: no observable effect
+            fn = self.uninterp_param(env, nm, ' → '.join(dom + [TY_LEAN[rty]]))
+            return Sc('(%s %s)' % (fn, actual), rty)
+        if pre is None:
+            raise Untranslatable('state-changing virtual call `%s` inside a conditionally evaluated expression' % nm)
+        if rty is None:
+            fn = self.uninterp_param(env, nm, ' → '.join(dom + ['σ']))
+            nv = frame.fresh(path_name(self.root_name(frame, root), path))
+            pre.append(('let', nv, '%s %s' % (fn, actual)))
+            self.write(env, root, path, Sc(nv, 'o'))
+            return None
+        fn = self.uninterp_param(env, nm, ' → '.join(dom + ['σ × %s' % TY_LEAN[rty]]))
+        r = frame.fresh('r')
+        pre.append(('let', r, '%s %s' % (fn, actual)))
+        self.write(env, root, path, Sc(tuple_proj(r, 0, 2), 'o'))
+        return Sc(tuple_proj(r, 1, 2), rty)
+
+    def fill_whole_list(self, args, env, pre):
+        """`std::fill(std::begin(v), std::end(v), x)`: every element of the list `v` becomes `x` — `List.replicate (List.length v) x`"""
+        def whole(a, which):
+            a = strip_noop(a)
+            while a.get('kind') in ('ImplicitCastExpr', 'MaterializeTemporaryExpr', 'CXXConstructExpr', 'CXXBindTemporaryExpr') and len(a.get('inner', []) or []) == 1:
+                a = strip_noop(a['inner'][0])
+            if a.get('kind') == 'CallExpr' and len(a['inner']) == 2 and (self.callee_ref(a).get('referencedDecl') or {}).get('name') == which:
+                return a['inner'][1]
+            if a.get('kind') == 'CXXMemberCallExpr' and len(a['inner']) == 1 and self.callee_ref(a).get('name') == which:
+                return self.callee_ref(a)['inner'][0]
+            return None
+        b, e = whole(args[0], 'begin'), whole(args[1], 'end')
+        if b is None or e is None or classify(type_of(b)) != 'seq' or classify(type_of(e)) != 'seq':
+            return NotImplemented
+        if self.resolve_lvalue(b, env) != self.resolve_lvalue(e, env):
+            return NotImplemented
+        root, path, lty, cur = self.list_value(b, env)
+        if lty[1] == 'e':
+            return NotImplemented
+        x = self.eval_elem(args[2], lty[1], env, pre)
+        self.list_store(env, pre, root, path, lty, '(List.replicate (List.length %s) %s)' % (par(cur.t), par(x.t)))
+        return None
 
     def uninterp_param(self, env, nm, fty):
         key = ('fn', (nm,))
@@ -1825,6 +2240,8 @@ class Translator:
                         raise Untranslatable('callee %s: %s' % (self.tu.fqual.get(decl['id'], decl.get('name')), e2))
             if info is None:
                 raise Untranslatable('callee %s: %s' % (self.tu.fqual.get(decl['id'], decl.get('name')), e))
+        if getattr(info, 'ret_ref', None):
+            raise Untranslatable('call of %s, which returns a reference into a container (translated as a location)' % info.name)
         arg_obj = {}
         terms = []
         for (pname, ty, root, path) in info.params:
@@ -1840,6 +2257,9 @@ class Translator:
                 if root >= len(args):
                     raise Untranslatable('default argument in a call of %s' % info.name)
                 a = args[root]
+                if not path and isinstance(ty, str) and ty.startswith('W') and self.spec.get('whole_containers'):
+                    terms.append(par(self.whole_value(a, env)[3].t))      # a container translated as a whole is passed as such
+                    continue
                 if root not in arg_obj:
                     arg_obj[root] = self.eval_obj(a, env, pre)
                 o = arg_obj[root]
@@ -2315,6 +2735,13 @@ class Translator:
                    "  if i < 0 then none else if i.toNat < v.length then some (v.set i.toNat x) else none",
         'vecResize': "/-- `v.resize(n)` on a `std::vector`: truncated, or extended with value-initialised elements `z` -/\n"
                      "def vecResize {β : Type} (v : List β) (n : Int) (z : β) : List β := v.take n.toNat ++ List.replicate (n.toNat - v.length) z",
+        'mapInsertNew': "/-- `std::map::insert(value)` on the entry list of a map (ascending keys): a key that is present keeps its value -/\n"
+                        "def mapInsertNew {κ ν : Type} [LT κ] [DecidableLT κ] [DecidableEq κ] : List (κ × ν) → κ × ν → List (κ × ν)\n"
+                        "  | [], kv => [kv]\n"
+                        "  | (k, v) :: rest, kv =>\n"
+                        "    if kv.1 < k then kv :: (k, v) :: rest\n"
+                        "    else if kv.1 = k then (k, v) :: rest\n"
+                        "    else (k, v) :: mapInsertNew rest kv",
     }
 
     def need_helper(self, name):
@@ -3038,7 +3465,15 @@ class Translator:
             inner = s.get('inner', []) or []
             if not inner:
                 return self.on_return(None, env)
+            rn = strip_noop(inner[0])
+            if rn.get('kind') == 'DeclRefExpr' and (rn.get('referencedDecl') or {}).get('id') in env.frame.top().ref_out and \
+                    (getattr(env.frame.top(), 'ret_ctype', '') or '').rstrip().endswith('&'):
+                # `T & f(T & x, …) { …; return x; }`: the result IS the reference parameter, whose written leaves are results already
+                return self.on_return(None, env)
             pre = []
+            loc = self.ref_location(inner[0], env, pre)      # `T & f() { return container_[i]; }`: the location, not the value
+            if loc is not None:
+                return self.wrap(pre, self.on_return(loc, env))
             obj = self.eval_obj(inner[0], env, pre)
             return self.wrap(pre, self.on_return(obj, env))
         if kind == 'WhileStmt':
@@ -3071,6 +3506,8 @@ class Translator:
             if env.frame.kind != 'loop':
                 raise Untranslatable('continue outside a translated loop')
             return env.frame.on_continue(env)
+        if kind == 'CXXForRangeStmt' and self.spec.get('range_for'):
+            return self.exec_range_for(s, env, k)      # `for (auto p : points)` over a list-encoded container: recursion on the list
         if kind in ('DoStmt', 'CXXForRangeStmt', 'SwitchStmt', 'GotoStmt', 'CXXTryStmt'):
             raise Untranslatable('unsupported statement %s' % kind)
         # expression statements
@@ -3111,6 +3548,11 @@ class Translator:
                 obj = self.cwise2(A, B, lambda a, b: self.sc_arith(op, cls, a, b, e2.frame, wt), e2.frame)
                 root, path = self.resolve_lvalue(s['inner'][1], e2)
                 return self.wrap(pre, self.bind_obj(e2, root, path, obj, k))
+            if self.spec.get('whole_containers') and self.iter_incr(s) is not None:      # `++it;` on an iterator into a whole container
+                e2 = env.copy()
+                rid, _ = self.iter_incr(s)
+                v2, _ = self.iter_value(s, e2)
+                return self.bind_obj(e2, rid, [], v2, k)
             raise Untranslatable('operator call statement %s' % nm)
         if kind in ('CallExpr', 'CXXMemberCallExpr'):
             pre = []
@@ -3118,6 +3560,30 @@ class Translator:
             self.eval_call(s, e2, pre)
             return self.wrap(pre, k(e2))
         raise Untranslatable('unsupported statement %s' % kind)
+
+    def ref_location(self, n, env, pre):
+        """a function whose return type is a NON-CONST lvalue reference to a scalar and whose returned expression is an element `c[i]` of
+        a sequence container translated as a list (`T & operator()(…) { return buffer_[k]; }`): the result is the LOCATION — the index
+        `i` into that list (an `Int`) —, not the value; the caller's read through the reference is `List.getD c i`, its assignment
+        `List.set c i x`. None when this reading does not apply (the ordinary value translation is then used)."""
+        frame = env.frame
+        if frame.kind != 'fn' or frame is not frame.top():
+            return None
+        rt = (getattr(frame, 'ret_ctype', '') or '').strip()
+        if not rt.endswith('&') or rt.endswith('&&') or re.match(r'^const\b', rt) or classify(rt[:-1].strip()) not in ('int', 'uint', 'double', 'float', 'bool'):
+            return None
+        m = strip_noop(n)
+        if not self.is_list_index(m) or LIST_OPTS.get('encoding') != 'plain':
+            raise Untranslatable('function returning a non-const reference to something other than an element of a list-encoded container')
+        root, path = self.resolve_lvalue(m['inner'][1], env)      # the container itself is not read: only the index is the result
+        i = self.eval(m['inner'][2], env, pre)
+        if i.ty != 'i':
+            raise Untranslatable('list index that is not an integer')
+        where = path_name(self.root_name(frame, root), path)
+        if getattr(frame, 'ret_ref', where) != where:
+            raise Untranslatable('function returning references into different containers')
+        frame.ret_ref = where
+        return Sc(i.t, 'i')
 
     def bind_obj(self, env, root, path, obj, k):
         """write an object to (root, path), binding every non-trivial leaf term to a fresh name first"""
@@ -3165,6 +3631,8 @@ class Translator:
         init = [c for c in v.get('inner', []) or [] if 'Expr' in c.get('kind', '') or 'Literal' in c.get('kind', '') or 'Operator' in c.get('kind', '')]
         env = env.copy()
         env.frame.top().root_names.setdefault(vid, name)
+        if self.spec.get('whole_containers') and self.ITER_RE.match(strip_cv(ct)):      # an iterator into a whole container: an index
+            return self.exec_iter_decl(v, init, env, k)
         if qt.rstrip().endswith('&'):
             if not init:
                 raise Untranslatable('reference `%s` without initialiser' % name)
@@ -3546,6 +4014,18 @@ class Translator:
                         found.append((root, tuple(path) + tuple(p)))
                 else:
                     found.append((root, tuple(path)))
+            if self.spec.get('whole_containers'):
+                if kd == 'CXXOperatorCallExpr' and self.iter_incr(n) is not None and self.iter_incr(n)[0] not in declared:
+                    found.append((self.iter_incr(n)[0], ()))      # `++it` on an iterator into a whole container: the index is carried
+                if self.whole_insert(n, env.frame) is not None and root_decl(self.whole_insert(n, env.frame)) not in declared:
+                    root, path, _, _ = self.whole_value(self.whole_insert(n, env.frame), env)
+                    found.append((root, tuple(path)))
+            if kd == 'CXXMemberCallExpr' and self.spec.get('abstract_classes') and self.abstract_call(n) is not None:
+                ab, amd = self.abstract_call(n)      # a state-changing virtual call on an abstract object: its state is carried
+                if not self.abstract_method_type(amd, env.frame)[0]:
+                    root, path = self.abstract_lvalue(ab, env)
+                    self.read_leaf(env, root, path, 'o')      # (a member gets its value before the loop)
+                    found.append((root, tuple(path)))
             if kd in ('CallExpr', 'CXXMemberCallExpr'):
                 callee = self.callee_ref(n)
                 decl = self.function_def(callee.get('referencedMemberDecl') or (callee.get('referencedDecl') or {}).get('id'))
@@ -3654,7 +4134,8 @@ class Translator:
         L.on_break = leave
         L.on_continue = again
         body = self.exec_stmt(body_n, EL.copy(), again)
-        exit_t = 'some ' + par(tuple_term([pn for pn, _ in pats]))
+        # the values on exit are those AFTER the evaluation of the condition (`while (++it != end)`: the increment has happened)
+        exit_t = 'some ' + par(tuple_term([self.read_leaf(EL, r_, list(p_), ty_).t for (r_, p_), (_, ty_) in zip(carried, pats)]))
         free = sorted(L.params.keys())
         for cls, tv in L.classes:
             frame.need(cls, tv)
@@ -3670,7 +4151,12 @@ class Translator:
         freestr = ' '.join(free)
         tree = ('if', unpar(c), body, ('ret', exit_t)) if (c is not None and count_t is None) else body
         lines = self.render(tree, 4)
-        txt = '\n'.join(lines).replace(' @@FREE@@', (' ' + freestr) if free else '')
+        # a scalar type variable that occurs only in the loop's instance arguments (`float x = <size_t>` inside the body, no parameter
+        # and no carried variable of that type) cannot be inferred at a call: it is passed by name
+        shown = ' '.join([TY_LEAN.get(L.params[nm]['ty'], L.params[nm]['ty']) for nm in free] + [TY_LEAN[ty] for _, ty in pats])
+        explicit = ''.join(' (%s := %s)' % (sym, sym) for tv, sym in (('a', 'α'), ('d', 'δ'))
+                           if any(t == tv for _, t in L.classes) and sym not in shown)
+        txt = '\n'.join(lines).replace(' @@FREE@@', explicit + ((' ' + freestr) if free else ''))
         sig = self.signature(L, [(nm, L.params[nm]['ty']) for nm in free], fuel=False)
         tys = [TY_LEAN[ty] for _, ty in pats]
         hdr = '/-- loop %d of `%s`: `none` = fuel exhausted; carried variables: %s -/\ndef %s%s : Nat → %s → Option (%s)' % (
@@ -3686,7 +4172,7 @@ class Translator:
             top.loop_defs.append('\n'.join([hdr, alt0, alt1, txt]))
         # call
         args = [par(L.params[nm]['arg']) for nm in free]
-        term = ' '.join([name] + args + ['fuel' if count_t is None else par(count_t)] + [par(x.t) for x in inits])
+        term = ' '.join([name + explicit] + args + ['fuel' if count_t is None else par(count_t)] + [par(x.t) for x in inits])
         r = frame.fresh('r')
         out = env.copy()
         lets = []
@@ -3699,6 +4185,125 @@ class Translator:
         for nm, t in reversed(lets):
             tree = ('let', nm, t, tree)
         return ('bind', r, term, tree)
+
+    # ---- range-based for (spec option `range_for`)
+    def exec_range_for(self, s, env, k):
+        """`for (auto p : c) body` / `for (const auto & p : c) body` over a whole container `c` that is encoded as a Lean list (a
+        std::vector / deque of scalars, a std::vector of fixed-size points in the 'checked' encoding): an auxiliary function that is
+        STRUCTURALLY RECURSIVE ON THE LIST (no fuel, no index, never `none`): `| [], vars => vars | p :: rest, vars => body; loop rest
+        vars'`. The body must not `break`, `continue`, `return` or assign the container; `p` is bound by value."""
+        frame = env.frame
+        top = frame.top()
+        inner = s.get('inner', []) or []
+        if len(inner) != 8 or inner[0]:
+            raise Untranslatable('range-based for with an init statement')
+        range_decl, var_decl, body_n = inner[1], inner[6], inner[7]
+        if self.contains(body_n, ('ReturnStmt', 'GotoStmt', 'BreakStmt', 'ContinueStmt')):
+            raise Untranslatable('break / continue / return inside a range-based for')
+        rv = [c for c in range_decl.get('inner', []) or [] if c.get('kind') == 'VarDecl']
+        lv = [c for c in var_decl.get('inner', []) or [] if c.get('kind') == 'VarDecl']
+        if len(rv) != 1 or len(lv) != 1 or not rv[0].get('inner'):
+            raise Untranslatable('unsupported form of range-based for')
+        cont = strip_noop(rv[0]['inner'][0])
+        if cont.get('valueCategory') != 'lvalue' or cont.get('kind') not in ('DeclRefExpr', 'MemberExpr'):
+            raise Untranslatable('range-based for over a temporary')
+        env = env.copy()
+        lty = self.tyvar(frame, type_of(cont))
+        if not (lty in ('la', 'ld', 'li') or (len(lty) == 3 and lty[0] == 'L')):
+            raise Untranslatable('range-based for over a container that is not a list of scalars / points')
+        croot, cpath = self.resolve_lvalue(cont, env)
+        cval = self.read_leaf(env, croot, cpath, lty)
+        carried = self.assigned_leaves([body_n], env)
+        carried = [c for c in carried if c[0] != lv[0]['id']]
+        if (croot, tuple(cpath)) in carried:
+            raise Untranslatable('range-based for whose body assigns the container')
+        carried.sort(key=lambda c: path_name(self.root_name(frame, c[0]), list(c[1])))
+        if not carried:
+            raise Untranslatable('loop without loop-carried variables')
+        top.nloops += 1
+        name = '%s.loop%d' % (top.name, top.nloops)
+        L = Frame(self, name, 'loop', parent=frame)
+        L.carried = set(carried)
+        L.final = frame.final
+        L.counted = True      # (no fuel: loops on fuel may not be nested inside)
+        EL = Env(L, outer=env)
+        inits, pats = [], []
+        for (root, path) in carried:
+            o = self.lookup(env, root, list(path))
+            if not isinstance(o, Sc):
+                raise Untranslatable('loop-carried variable `%s` has no value before the loop' % path_name(self.root_name(frame, root), list(path)))
+            pn = L.fresh(path_name(self.root_name(frame, root), list(path)))
+            self.store(EL, root, list(path), Sc(pn, o.ty))
+            inits.append(o)
+            pats.append((pn, o.ty))
+        # the loop variable, bound by value to the head of the list
+        vid = lv[0]['id']
+        vname = lv[0].get('name', 'x')
+        top.root_names.setdefault(vid, vname)
+        EL.local_roots.add(vid)
+        head = L.fresh(vname + '_at')
+        lets = []
+        if lty[0] == 'l':
+            EL.vars[vid] = Sc(head, lty[1])
+        else:
+            nco, ety = int(lty[1]), lty[2]
+            obj = {}
+            for i in range(nco):
+                nm = L.fresh('%s_%d' % (vname, i))
+                lets.append((nm, tuple_proj(head, i, nco)))
+                obj[(i,)] = Sc(nm, ety)
+            EL.vars[vid] = obj
+
+        def recur(e):
+            cur = [self.read_leaf(e, r, list(p), ty) for (r, p), (_, ty) in zip(carried, pats)]
+            return ('ret', '%s @@FREE@@ rest_v %s' % (name, ' '.join(par(x.t) for x in cur)))
+
+        def no_jump(e):
+            raise Untranslatable('break / continue inside a range-based for')
+        L.on_break = no_jump
+        L.on_continue = no_jump
+        body = self.exec_stmt(body_n, EL.copy(), recur)
+        for nm, t in reversed(lets):
+            body = ('let', nm, t, body)
+        free = sorted(L.params.keys())
+        for cls, tv in L.classes:
+            frame.need(cls, tv)
+        if L.uses_delta:
+            top.uses_delta = True
+        freestr = ' '.join(free)
+        lines = self.render(body, 4)
+        shown = ' '.join([TY_LEAN.get(L.params[nm]['ty'], L.params[nm]['ty']) for nm in free] + [TY_LEAN[ty] for _, ty in pats] + [TY_LEAN[lty]])
+        explicit = ''.join(' (%s := %s)' % (sym, sym) for tv, sym in (('a', 'α'), ('d', 'δ'))
+                           if any(t == tv for _, t in L.classes) and sym not in shown)
+        txt = '\n'.join(lines).replace(' @@FREE@@', explicit + ((' ' + freestr) if free else ''))
+        sig = self.signature(L, [(nm, L.params[nm]['ty']) for nm in free], fuel=False, ret_tys=[lty] + [ty for _, ty in pats])
+        tys = [TY_LEAN[ty] for _, ty in pats]
+        hdr = '/-- loop %d of `%s`: range-based for, structural recursion on the list `%s`; carried variables: %s -/\ndef %s%s : %s → %s → %s' % (
+            top.nloops, top.cxx, path_name(self.root_name(frame, croot), cpath), ', '.join(pn for pn, _ in pats), name, sig,
+            TY_LEAN[lty], ' → '.join(tys), tuple_type([ty for _, ty in pats]))
+        alt0 = '  | [], %s => %s' % (', '.join(pn for pn, _ in pats), tuple_term([pn for pn, _ in pats]))
+        alt1 = '  | %s :: rest_v, %s =>' % (head, ', '.join(pn for pn, _ in pats))
+        if frame.final:
+            top.loop_defs.append('\n'.join([hdr, alt0, alt1, txt]))
+        args = [par(L.params[nm]['arg']) for nm in free]
+        term = ' '.join([name + explicit] + args + [par(cval.t)] + [par(x.t) for x in inits])
+        out = env.copy()
+        n = len(carried)
+        if n == 1:
+            (root, path), (pn, ty) = carried[0], pats[0]
+            nm = frame.fresh(path_name(self.root_name(frame, root), list(path)))
+            self.store(out, root, list(path), Sc(nm, ty))
+            return ('let', nm, term, k(out))
+        r = frame.fresh('r')
+        lets2 = []
+        for i, ((root, path), (pn, ty)) in enumerate(zip(carried, pats)):
+            nm = frame.fresh(path_name(self.root_name(frame, root), list(path)))
+            lets2.append((nm, tuple_proj(r, i, n)))
+            self.store(out, root, list(path), Sc(nm, ty))
+        tree = k(out)
+        for nm, t in reversed(lets2):
+            tree = ('let', nm, t, tree)
+        return ('let', r, term, tree)
 
     # ---- loops whose condition is decided at translation time (`for (size_t a = 0; a < DIM; ++a)`): unrolled
     def constant_condition(self, cond_n, env):
@@ -3797,6 +4402,8 @@ class Translator:
             tvs.append('δ')
         if any('τ' in TY_LEAN.get(ty, ty) for ty in tys):
             tvs.append('τ')
+        if any('σ' in TY_LEAN.get(ty, ty) for ty in tys):      # abstract objects (spec key `abstract_classes`)
+            tvs.append('σ')
         s = ''
         if tvs:
             s += ' {%s : Type}' % ' '.join(tvs)
@@ -3946,6 +4553,7 @@ class Translator:
         for pass_no in (1, 2):
             frame = Frame(self, name, 'fn')
             frame.cxx = cxx
+            frame.ret_ctype = (decl.get('type') or {}).get('qualType', '').split('(')[0]      # declared return type (ref_location)
             frame.out_filter = outputs
             frame.final = pass_no == 2
             frame.float_map = dict(prev.float_map) if prev else self.scan_float_types(decl)
@@ -4018,6 +4626,8 @@ class Translator:
         sig = self.signature(frame, plist, frame.fuel, out_tys)
         outs_doc = [('ret' + ('_' + '_'.join(key_name(x) for x in p) if p else '')) for p, _ in rets] + \
                    [path_name(self.root_name(frame, kk[0]), list(kk[1])) + "'" for kk in wkeys]
+        if getattr(frame, 'ret_ref', None) and outs_doc:
+            outs_doc[0] = 'ret = the LOCATION returned by reference (index into %s)' % frame.ret_ref
         if consts:
             cxx = cxx + ' with ' + ', '.join('%s = %d' % (parms[ci].get('name', 'arg%d' % ci), cv) for ci, cv in sorted(consts.items()))
         doc = '/-- `%s`%s — %s%s\n    result: %s%s -/' % (cxx, (' (restricted to the members %s; dead code removed)' % ', '.join(outputs)) if outputs else '', self.tu.where(decl), (' <%s>' % self.tu.tmpl_args[fid]) if fid in self.tu.tmpl_args else '',
@@ -4039,6 +4649,7 @@ class Translator:
         info.uses_delta = frame.uses_delta or any(tv == 'd' for _, tv in frame.classes)
         info.float_map = dict(frame.float_map)
         info.cxx = cxx
+        info.ret_ref = getattr(frame, 'ret_ref', None)
         info.signature = 'def %s%s : %s' % (name, sig, rt)
         return info
 
@@ -4080,7 +4691,7 @@ def translate(repo, scratch, spec):
     for f in spec['functions']:
         cxx = f['cxx']
         try:
-            cands = tu.find_function(cxx, f.get('sig'), f.get('targs'), f.get('record'), f.get('cls'))
+            cands = tu.find_function(cxx, f.get('sig'), f.get('targs'), f.get('record'), f.get('cls'), f.get('nosig'))
             if not cands:
                 raise Untranslatable('no definition of `%s`%s found in the translation unit' % (cxx, (' with signature containing `%s`' % f['sig']) if f.get('sig') else ''))
             if len(cands) > 1:
